@@ -159,11 +159,13 @@ def gen(r, focus, tier="quick"):
         shape = r.choice(["chain", "chain", "fanout", "fanin", "diamond", "multiroot", "random"])
         if focus == "C01" and r.random() < 0.06:
             nops, shape = r.choice([12, 14, 20]), "fanin"       # a sink behind many parents
+        elif r.random() < 0.015:
+            nops, shape = r.choice([30, 60, 100]), r.choice(["chain", "chain", "random"])     # far longer than the generator makes
         par = dag_parents(r, nops, shape)
         ops = []
         for oi in range(nops):
             segs = []
-            for _ in range(r.choice([1, 1, 1, 2, 3])):
+            for _ in range(r.choice([1, 1, 1, 2, 3]) if r.random() < 0.985 else r.choice([8, 20])):
                 law = r.choice(laws)
                 cq = qty(r, exact, size_kinds)
                 mult = {"linear3": 3, "linear7": 7}.get(law, 1) if exact else 1
@@ -207,6 +209,16 @@ def gen(r, focus, tier="quick"):
         "fault": fault,
         "fault_tick": r.randint(0, max(1, int(T * 0.7))),
     }
+    if r.random() < 0.02:
+        # thousands of idle ticks before anything arrives (and before the fault): whatever a tick does to an empty pool
+        # accumulates first
+        gap = r.choice([1000, 1000, 5000, 20000])
+        if focus in ("C03", "C04") and r.random() < 0.35:
+            gap = 100000 - r.randint(1, max(2, T // 2))      # the busy part of the run straddles tick 100 000
+        for p_ in pipes:
+            p_["at"] += gap
+        cfg["ticks"] = T + gap
+        knobs["fault_tick"] += gap
     scn = {"kind": "ex", "focus": focus, "cfg": cfg, "pipes": pipes, "knobs": knobs}
     if r.random() < 0.15:
         scn["decoy_at"] = r.randint(1, max(1, T // 2))
